@@ -96,7 +96,7 @@ Repaired == c.design = "repaired"
 AllG == IF Tx THEN {"recv", "send", "closer", "cleanup"} ELSE {"recv", "send", "closer"}
 Stopped(i) == ex[i] = "stopped"
 Down(i) == Stopped(i) \/ dn[i] \/ mux = "down" \/ "recv" \notin gr[i] \/ "send" \notin gr[i]
-ReadAlive(i) == ex[i] = "run" /\ mux = "up" /\ "send" \in gr[i]
+ReadAlive(i) == ex[i] = "run" /\ mux # "down" /\ "send" \in gr[i]
 StateAlive(i) == ex[i] = "run" /\ ~dn[i]
 ClientAgency(s) == s \in {"init", "idle0", "blk"}
 \* chain-sync / block-fetch Idle is a client-agency state ("idle0"), "await" (CanAwait / Busy) the server's;
@@ -170,7 +170,7 @@ SLSend(i) ==
     /\ UNCHANGED <<ex, gr, dn, inb, hp, cur, reg, nreg, handled, perr, callV>> /\ EngFrame
 
 \* early: the handler of the first Done is held until the peer has played everything and the muxer has read it
-EarlyOk(i) == (c.t = "early" /\ i = 1) => (pi > Len(S) /\ wire = <<>> /\ (eof => mux = "down"))
+EarlyOk(i) == (c.t = "early" /\ i = 1) => (pi > Len(S) /\ wire = <<>> /\ mux # "failing" /\ (eof => mux = "down"))
 
 \* recvLoop takes a message in a client-agency state
 RLTake(i) ==
@@ -208,7 +208,7 @@ HInit(i) ==
     /\ UNCHANGED <<gr, dn, st, inb, q, reg, nreg, handled, perr, callV>> /\ EngFrame
 HStart(i) ==
     /\ hp[i] = "start"
-    /\ IF mux = "up"
+    /\ IF mux # "down"
        THEN /\ ex' = [ex EXCEPT ![i + 1] = "run"] /\ gr' = [gr EXCEPT ![i + 1] = AllG]
             /\ st' = [st EXCEPT ![i + 1] = Initial] /\ reg' = i + 1 /\ nreg' = nreg + 1
             /\ UNCHANGED <<dn, perr>>
@@ -236,21 +236,27 @@ Instance(i) == SLSend(i) \/ RLTake(i) \/ Handler(i) \/ RLExit(i) \/ SLExit(i) \/
 (* the muxer and the connection *)
 
 ConnFrame == UNCHANGED <<c, ex, gr, dn, st, q, hp, cur, reg, nreg, handled, peerV, userV, callV>>
+\* muxer.readLoop: a segment goes to the instance registered at that moment; one for a protocol nobody is registered for,
+\* or EOF, makes readLoop give up ("failing": it reads no more) and then stop the muxer - in between a new instance can
+\* still register
 MuxRead ==
     /\ mux = "up"
     /\ \/ /\ wire # <<>> /\ wire' = Tail(wire)
           /\ IF reg # 0
-             THEN inb' = (IF ReadAlive(reg) THEN [inb EXCEPT ![reg] = Append(@, Head(wire))] ELSE inb) /\ UNCHANGED <<mux, merr>>
-             ELSE mux' = "down" /\ merr' = TRUE /\ UNCHANGED inb
-       \/ /\ wire = <<>> /\ eof /\ mux' = "down" /\ merr' = TRUE /\ UNCHANGED <<wire, inb>>
-    /\ UNCHANGED <<perr, sh, closeSig, connClosed, errClosed>> /\ ConnFrame
+             THEN inb' = (IF ReadAlive(reg) THEN [inb EXCEPT ![reg] = Append(@, Head(wire))] ELSE inb) /\ UNCHANGED mux
+             ELSE mux' = "failing" /\ UNCHANGED inb
+       \/ /\ wire = <<>> /\ eof /\ mux' = "failing" /\ UNCHANGED <<wire, inb>>
+    /\ UNCHANGED <<perr, merr, sh, closeSig, connClosed, errClosed>> /\ ConnFrame
+MuxFail ==
+    /\ mux = "failing" /\ mux' = "down" /\ merr' = TRUE
+    /\ UNCHANGED <<wire, inb, perr, sh, closeSig, connClosed, errClosed>> /\ ConnFrame
 \* forwarders and shutdown goroutine in one (they are followed step by step in ClientApi.tla)
 Shutdown ==
     /\ \/ sh = "wait" /\ (closeSig \/ perr \/ merr) /\ sh' = "wg" /\ mux' = "down" /\ connClosed' = TRUE /\ UNCHANGED errClosed
        \/ sh = "wg" /\ drain /\ sh' = "exit" /\ errClosed' = TRUE /\ UNCHANGED <<mux, connClosed>>
     /\ UNCHANGED <<wire, inb, perr, merr, closeSig>> /\ ConnFrame
 
-Library == Calls \/ (\E i \in Gens : Instance(i)) \/ MuxRead \/ Shutdown
+Library == Calls \/ (\E i \in Gens : Instance(i)) \/ MuxRead \/ MuxFail \/ Shutdown
 
 --------------------------------------------------------------------------
 (* the peer and the user *)
@@ -281,7 +287,7 @@ UserCloseRet ==
 User == UserClose \/ UserCloseRet
 
 Next == Library \/ Peer \/ User
-Spec == Init /\ [][Next]_vars /\ WF_vars(Calls) /\ WF_vars(Peer) /\ WF_vars(User) /\ WF_vars(MuxRead) /\ WF_vars(Shutdown)
+Spec == Init /\ [][Next]_vars /\ WF_vars(Calls) /\ WF_vars(Peer) /\ WF_vars(User) /\ WF_vars(MuxRead) /\ WF_vars(MuxFail) /\ WF_vars(Shutdown)
         /\ \A i \in Gens : WF_vars(SLSend(i)) /\ WF_vars(RLTake(i) \/ Handler(i) \/ RLExit(i)) /\ WF_vars(SLExit(i))
                            /\ WF_vars(Closer(i)) /\ WF_vars(Cleanup(i))
 
